@@ -51,6 +51,7 @@ void reb_integrator_part1(struct reb_simulation* r){
 		// would advance the particles a second time, on top of the integrator that is used now.
 		reb_ode_free(r->ri_bs.nbody_ode);
 		r->ri_bs.nbody_ode = NULL;
+		r->ri_bs.user_ode_needs_nbody = 0; // Only the BS integrator itself couples user ODEs to its N-body ODE.
 	}
 	switch(r->integrator){
 		case REB_INTEGRATOR_IAS15:
